@@ -17,7 +17,7 @@ theorem addSrc_kill_scaled (a : K) (c : Cpt K) :
     c.addSrc ((c.mapSrc (fun _ => 0)).mapSrc (fun v => a * v)) = c := by
   cases c with
   | Cap n1 n2 c v0 => cases v0 <;> simp [Cpt.mapSrc, Cpt.addSrc, optAdd]
-  | Ind n1 n2 m l i0 coup => cases i0 <;> simp [Cpt.mapSrc, Cpt.addSrc, optAdd]
+  | Ind n1 n2 m l i0 coup => cases i0 <;> simp [Cpt.mapSrc, Cpt.addSrc, optAdd, coupAdd_kill_scaled]
   | _ => simp [Cpt.mapSrc, Cpt.addSrc]
 
 theorem sameShape_kill_scaled (a : K) (c : Cpt K) :
@@ -25,7 +25,7 @@ theorem sameShape_kill_scaled (a : K) (c : Cpt K) :
   unfold SameShape
   cases c with
   | Cap n1 n2 c v0 => cases v0 <;> simp [Cpt.mapSrc]
-  | Ind n1 n2 m l i0 coup => cases i0 <;> simp [Cpt.mapSrc]
+  | Ind n1 n2 m l i0 coup => cases i0 <;> simp [Cpt.mapSrc, coupMap_zero_idem]
   | _ => simp [Cpt.mapSrc]
 
 theorem zip_kill_scaled (a : K) (cs : List (Cpt K)) :
@@ -137,7 +137,7 @@ theorem killAll_has_no_sources (cs : List (Cpt K)) :
   obtain ⟨c0, _, rfl⟩ := hc
   cases c0 with
   | Cap n1 n2 c v0 => cases v0 <;> simp [Cpt.mapSrc]
-  | Ind n1 n2 m l i0 coup => cases i0 <;> simp [Cpt.mapSrc]
+  | Ind n1 n2 m l i0 coup => cases i0 <;> simp [Cpt.mapSrc, coupMap_zero_zero]
   | _ => simp [Cpt.mapSrc]
 
 end Lcapy.C04
